@@ -22,6 +22,10 @@ SELFTEST_MAP = {
     "cache_ignores_add_vars.patch": ["C06"],
     "count_delta_dropped.patch": ["C05"],
     "count_not_undone_on_oom.patch": ["C14"],
+    "dddmp_unchecked_index.patch": ["C15"],
+    "dddmp_unchecked_sub.patch": ["C15"],
+    "dddmp_unclamped_prealloc.patch": ["C15"],
+    "dddmp_dead_overflow_check.patch": ["C15"],
 }
 
 
